@@ -142,13 +142,15 @@ def family(tier):
 
 
 # model mutants (DESIGN 3.4): the monitor must reject the mutated model on the named instance
-MODEL_MUTANTS = [("dm_trunc", "trunc"), ("dm_limit", "basic_const"), ("dm_norecguard", "nested")]
+MODEL_MUTANTS = [("dm_trunc", "trunc"), ("dm_limit", "limit0"), ("dm_norecguard", "nested")]
 
 
 def selftest_model(wd):
     """Can the monitor say no at the model level?  TLC on L1[Bug] || P_C19 must find a rejection."""
     out = []
     fam = {f[0]: f for f in family("quick")}
+    # the size limit within the bound of 3 stored events: max-presses 0 (a press arriving with one stored event stops)
+    fam["limit0"] = ("limit0", make(["rec1", "stop", "play1"], {"a": K("a")}, "constant", 0), dict(D=0, saves=1, maclen=3))
     for bug, iname in MODEL_MUTANTS:
         name, (desc, params), kw = fam[iname]
         inst = instance("mm_%s" % bug, desc, params, **kw)
